@@ -6,5 +6,5 @@ here="$(cd "$(dirname "$0")/.." && pwd)"
 mkdir -p "$here/harness/bin" "$here/evidence" "$here/replays" "$VERIF_SCRATCH"
 cd "$here/harness"
 cp /repo/go.sum go.sum
-go build -tags verif -o "$here/harness/bin/vcheck" ./cmd/vcheck
+go build -tags verif ./internal/... ./cmd/vc/...
 echo "setup ok: $(go version)"
